@@ -1220,6 +1220,25 @@ func (e *absEnv) stdCall(fr *absFrame, name string, args []aval, depth int) (ava
 			return aslice{sl}, true
 		}
 		return newVals(es, et), true
+	case "cmp.Less":
+		// (for the ordered values of the abstraction — no NaN among them — cmp.Less is <)
+		if len(args) == 2 {
+			return e.binop(token.LSS, args[0], args[1]), true
+		}
+	case "cmp.Compare":
+		if len(args) == 2 {
+			if lt, ok := e.binop(token.LSS, args[0], args[1]).(abool); ok {
+				if gt, ok := e.binop(token.GTR, args[0], args[1]).(abool); ok {
+					switch {
+					case bool(lt):
+						return aint(-1), true
+					case bool(gt):
+						return aint(1), true
+					}
+					return aint(0), true
+				}
+			}
+		}
 	case "slices.IndexFunc", "slices.ContainsFunc":
 		es, ok := elems(args[0])
 		if !ok {
